@@ -48,6 +48,7 @@ type PropSpec struct {
 	Computed    []string      `json:"computed_premises,omitempty"`
 	Scan        *scanOpts     `json:"scan_nondeterminism,omitempty"`
 	ScanAst     *astScanOpts  `json:"scan_ast_writes,omitempty"`
+	ScanRec     bool          `json:"scan_recursion,omitempty"`
 	Extra       []PropExtra   `json:"extra_functions,omitempty"`
 	Ignore      []string      `json:"goals_of_other_properties,omitempty"` // regexps: goal obligations that belong to another property's check
 }
@@ -144,7 +145,7 @@ func runCheck(id, tier, repo, verif string, seed int, writeEv bool) int {
 		}
 	}
 	work := filepath.Join(verif, ".work", id)
-	o := &runOpts{repo: repo, work: work, timeout: timeout, seed: seed, cross: tier == "thorough", jobs: 16, scan: ps.Scan, astScan: ps.ScanAst}
+	o := &runOpts{repo: repo, work: work, timeout: timeout, seed: seed, cross: tier == "thorough", jobs: 16, scan: ps.Scan, astScan: ps.ScanAst, recScan: ps.ScanRec}
 	var mainFuncs []*regexp.Regexp
 	for _, r := range ps.Functions {
 		re := regexp.MustCompile("^(?:" + r + ")$")
